@@ -111,6 +111,8 @@ def gen_process_item(w, m):
                                      [wg.kg_to_units(item["init_perm"][1][0], u, wg.MW[c2]), u]]
         _orders(w, item, multi, s.get("n_points", 99))
     item["cond"] = _cond(w, T, comp, steps, dt, noniso=model.endswith("noniso"))
+    if w.random() < 0.08:
+        item["comments"] = w.choice(["D:\\pv\\romakon\\run7\\", 'note: "final", see p. 3', "line one\nline two", "50 % EtOH; 60 \u00b0C"])   # the public comments attribute, set by the user
     if w.random() < (0.5 if steps > 100 else 0.12):
         # the same model with its permeances re-expressed in other units through the public
         # Permeance.convert (a ProcessModel is a plain data class; units are a persisted column)
@@ -178,7 +180,7 @@ def gen_curve_item(w, m):
     comps = sorted(round(w.uniform(0.01, 0.99), 6) for _ in range(n))
     T = wg.rnd(w, 293.15, 373.15, 2)
     item = {"kind": "curve", "how": "hand", "mixture": mix, "T": T, "comps": [[x, basis] for x in comps],
-            "membrane_name": w.choice(["hand made", "M-1", "x", 'M,1 "q"']), "comments": w.choice([None, "made by hand", "a, b", 'say "hi", twice'])}
+            "membrane_name": w.choice(["hand made", "M-1", "x", 'M,1 "q"']), "comments": w.choice([None, "made by hand", "a, b", 'say "hi", twice', "D:\\pv\\run7\\", "tab\there"])}
     if how == "hand-flux":
         item["fluxes"] = [[wg.logu(w, 1e-9, 1e3, 9), wg.logu(w, 1e-9, 1e3, 9)] for _ in comps]
         mode = w.choice(["none", "none", "pp", "pt"])
@@ -232,10 +234,17 @@ def gen_world(w):
             picked.append(nme)
     n_syn = w.choice([0, 1, 1, 2]) if picked else w.choice([1, 2])
     membranes = []
+
+    def dirname(k):
+        # directory names a user might really have: brackets, spaces, parentheses, '#', '&' (no commas: the name goes into CSV cells)
+        if w.random() < 0.3:
+            return w.choice(["m%d[2]", "m %d (copy)", "m%d#b", "m%d & co", "m%d[a-c]", "M%d{x}"]) % k
+        return "m%d" % k
+
     for nme in picked:
-        membranes.append(wg.fixture_membrane(nme, "m%d" % len(membranes)))
+        membranes.append(wg.fixture_membrane(nme, dirname(len(membranes))))
     for _ in range(n_syn):
-        membranes.append(wg.synth_membrane(w, "m%d" % len(membranes)))
+        membranes.append(wg.synth_membrane(w, dirname(len(membranes))))
     metas = [wg.membrane_meta(m) for m in membranes]
     pool = []
     for _ in range(w.randint(2, 5)):
